@@ -37,13 +37,20 @@ func GenStoreWorld(prop string) func(r *engine.PRNG, run int, tier string) *engi
 		observe := []string{"every", "sparse", "end"}[r.Pick(3, 4, 3)]
 		p.Config["observe"] = observe
 		var nOps int
-		switch r.Pick(40, 35, 25) {
+		switch r.Pick(400, 350, 247, 3) {
 		case 0:
 			nOps = r.Range(3, 12)
 		case 1:
 			nOps = r.Range(12, 40)
-		default:
+		case 2:
 			nOps = r.Range(40, 120)
+		default: // a long history: many compactions, array growths, pages, collapses
+			nOps = r.Range(400, 1200)
+			p.Config["history"] = "long"
+			if observe == "every" { // a full observation after each of a thousand events is quadratic
+				observe = "sparse"
+				p.Config["observe"] = observe
+			}
 		}
 		centre := 0
 		switch r.Pick(30, 30, 35, 3, 2) {
@@ -281,7 +288,7 @@ func GenStoreWorld(prop string) func(r *engine.PRNG, run int, tier string) *engi
 			g := g
 			q.After(int64(r.Range(0, 100)), func() { actor(g) })
 		}
-		for steps := 0; q.Step() && steps < 2000; steps++ {
+		for steps := 0; q.Step() && steps < 20000; steps++ {
 		}
 		return p
 	}
